@@ -359,13 +359,17 @@ class Doist(tyming.Tymist):
         For setting attributes on bound methods.
         """
 
-        if doers is None:
-            doers = self.doers
+        own = doers is None  # True means enter .doers into .deeds
+        if own:
+            doers = list(self.doers)  # copy since a doer's enter may extend or remove
             deeds = self.deeds
         else:
             deeds = deque()  # when doers is provided then don't use .deeds
 
         for doer in doers:
+            if own and (doer not in self.doers or
+                        any(deed[2] is doer for deed in deeds)):
+                continue  # removed or already entered by some prior doer's enter
             try:
                 doer.done = False  # False at enter. False signals incomplete
             except AttributeError:  # when using bound method for generator function
@@ -1264,13 +1268,17 @@ class DoDoer(Doer):
         """
         # inject temp into file resources here if any
 
-        if doers is None:
-            doers = self.doers
+        own = doers is None  # True means enter .doers into .deeds
+        if own:
+            doers = list(self.doers)  # copy since a doer's enter may extend or remove
             deeds = self.deeds
         else:
             deeds = deque()
 
         for doer in doers:
+            if own and (doer not in self.doers or
+                        any(deed[2] is doer for deed in deeds)):
+                continue  # removed or already entered by some prior doer's enter
             try:
                 doer.done = False  # False at enter. False signals incomplete
             except AttributeError:   # when using bound method for generator function
